@@ -764,9 +764,24 @@ impl<'a> Gen<'a> {
                 }
                 _ => {
                     let fu = rng.pick(&self.sig.funcs);
-                    let args = fu.args.iter().map(|a| self.pattern(rng, &mut vars, a, 0)).collect();
+                    let mut args: Vec<T> = vec![];
+                    for a in &fu.args {
+                        // an i64 argument may itself be a function lookup: (f (g x) y)
+                        if *a == Ty::I64 && rng.chance(1, 5) {
+                            let gu = rng.pick(&self.sig.funcs);
+                            let gargs = gu.args.iter().map(|b| self.pattern(rng, &mut vars, b, 0)).collect();
+                            args.push(T::App(gu.name.clone(), gargs));
+                        } else {
+                            args.push(self.pattern(rng, &mut vars, a, 0));
+                        }
+                    }
                     let v = self.var_or_fresh(rng, &mut vars, &Ty::I64, 2);
-                    body.push(Fact::Eq(v, T::App(fu.name.clone(), args)));
+                    // both orientations of the equation
+                    if rng.chance(1, 3) {
+                        body.push(Fact::Eq(T::App(fu.name.clone(), args), v));
+                    } else {
+                        body.push(Fact::Eq(v, T::App(fu.name.clone(), args)));
+                    }
                 }
             }
         }
